@@ -36,6 +36,7 @@
 -/
 import FwdVerif.Lemmas.C20
 import FwdVerif.Model.C20Stack
+import FwdVerif.Model.C20Gen
 
 namespace FwdVerif
 namespace C20
@@ -775,6 +776,29 @@ theorem c20_sibling_proxy_drops_limits_witness :
     siblingListenExpr { c with proxy := false } = listenExpr { c with proxy := false } ∧
     siblingListenExpr { c with readLimit := 0, writeLimit := 0 } = listenExpr { c with readLimit := 0, writeLimit := 0 } := by
   decide
+
+/-! ### Tie to the source: `newRateLimiter` as translated from `ratelimit/ratelimit.go`
+
+`Model/C20Gen.lean` is regenerated on every run by `harness/srcgen` (statement-by-statement
+translation of `newRateLimiter` and the constant it uses; Go's `/` is `Int.tdiv`).  The theorem says
+the hand-written `newRateLimiter`/`burstOf` every bound above is stated over IS that function, for
+every bandwidth (int64 overflow aside: the model's integers are unbounded).  A change of the
+function's arithmetic in /repo changes the generated module and this obligation no longer checks. -/
+
+theorem c20_generated_newRateLimiter_is_model (bw : Nat) :
+    C20Gen.newRateLimiter (bw : Int)
+      = (((newRateLimiter bw).rate : Int), ((newRateLimiter bw).burst : Int)) := by
+  have h : Int.tdiv (bw : Int) 64 = ((bw / 64 : Nat) : Int) := by
+    rw [Int.tdiv_eq_ediv_of_nonneg (by omega)]; omega
+  simp only [C20Gen.newRateLimiter, C20Gen.defaultMaxBurstSize, newRateLimiter, burstOf,
+    defaultMaxBurstSize, h]
+  by_cases hc : bw / 64 < 4 * 1024 * 1024
+  · simp [hc]; omega
+  · simp [hc]; omega
+
+/-- both branches of the translated function are reached: 1 MiB/s keeps the 4 MiB burst, 1 GiB/s scales it -/
+example : C20Gen.newRateLimiter 1048576 = (1048576, 4194304) ∧
+    C20Gen.newRateLimiter 1073741824 = (1073741824, 16777216) := by decide
 
 end C20
 end FwdVerif
